@@ -198,6 +198,17 @@ class Srv:
             self._watch(inst, d["instance_uuid"])
         return st, d
 
+    def start_many(self, ids, to):
+        st, d = self.req("POST", "/start-instances", {"instances": len(ids), "timeout": self.timeout_dict(to)})
+        if st == 200:
+            uuids = d.get("instance_uuids") if isinstance(d, dict) else d
+            if not isinstance(uuids, list) or len(uuids) != len(ids) or len(set(uuids)) != len(uuids):
+                return 500, "start-instances answered %r" % (d,)
+            for i, u in zip(sorted(ids), uuids):
+                self.ids[i] = u
+                self._watch(self.app._instance_manager._instances[u]["instance"], u)
+        return st, d
+
     def _watch(self, inst, uid):
         self.watched.add(uid)
         orig = inst.destroy
